@@ -15,7 +15,9 @@ pub mod c11;
 pub mod c12;
 pub mod c13;
 pub mod c14;
+pub mod c15;
 pub mod c16;
+pub mod c17;
 pub mod c18;
 pub mod c19;
 pub mod c20;
@@ -41,7 +43,9 @@ pub fn run(ctx: &Ctx) -> Option<Report> {
         "C12" => c12::run(ctx),
         "C13" => c13::run(ctx),
         "C14" => c14::run(ctx),
+        "C15" => c15::run(ctx),
         "C16" => c16::run(ctx),
+        "C17" => c17::run(ctx),
         "C18" => c18::run(ctx),
         "C19" => c19::run(ctx),
         "C20" => c20::run(ctx),
@@ -81,7 +85,9 @@ pub fn replay(id: &str, file: &str) -> i32 {
         "C12" => c12::replay(case),
         "C13" => c13::replay(case),
         "C14" => c14::replay(case),
+        "C15" => c15::replay(case),
         "C16" => c16::replay(case),
+        "C17" => c17::replay(case),
         "C18" => c18::replay(case),
         "C19" => c19::replay(case),
         "C20" => c20::replay(case),
@@ -111,6 +117,25 @@ pub fn replay(id: &str, file: &str) -> i32 {
     }
 }
 
-pub fn dump(_corpus: &str, _seed: u64, _tier: Tier, _out: &str) -> i32 {
-    2
+pub fn dump(corpus: &str, seed: u64, tier: Tier, input: Option<&str>, out: &str) -> i32 {
+    match corpus {
+        "c15" => {
+            let Some(input) = input else { return 2 };
+            let texts: Vec<String> = match std::fs::read_to_string(input).ok().and_then(|t| serde_json::from_str(&t).ok()) {
+                Some(t) => t,
+                None => return 2,
+            };
+            c15::dump(&texts, out)
+        }
+        "c17" => c17::dump(seed, tier, out),
+        "record" => {
+            let Some(input) = input else { return 2 };
+            let texts: Vec<String> = match std::fs::read_to_string(input).ok().and_then(|t| serde_json::from_str(&t).ok()) {
+                Some(t) => t,
+                None => return 2,
+            };
+            c17::dump_records(&texts, out)
+        }
+        _ => 2,
+    }
 }
